@@ -521,7 +521,18 @@ func runC13() int {
 		depth, maxStates, budget = 9, 6000000, 20*time.Minute
 	}
 	c13Component(rep, pool, depth, maxStates, time.Now().Add(budget))
-	rep.Coverage["rule"] = "explicit-state BFS over operation sequences on the real state.State {announce linked/unlinked header, announce 10, deliver small/60MB body for requested/queued/unknown hash, pop, next-request, clear-all, clear-after, set-last} over a tree (trunk of 14, two forks); every return value and count compared with a two-FIFO reference after every step; state key = reflective dump of State + reference"
+	c13Conc(rep)
+	// node level: announcements longer than the ten-block window (a backlog exists), forks off the
+	// window and off the backlog, bodies in any order - on the real Node.Run
+	histCheckInto(rep, histCheck{prop: "C13", scenarios: c13NodeScenarios(), depthQ: 4, depthT: 6, statesQ: 150000, statesT: 2000000,
+		budgetQ: 100 * time.Second, budgetT: 20 * time.Minute, assume: peerAssumption,
+		accept: func(v core.Violation) bool { return v.Clause == "converges-after-drain" }})
+	rep.Coverage["rule"] = "(1) node level: explicit-state BFS over histories {extend by 12 (more than the window), fork off the last / third-last / twelfth-last announced block, answer oldest / second-oldest / all block requests, clock} on the real Node.Run; oracle over the timestamped getdata(block) messages and HandleHeaders callbacks: chain order, at most once per connection unless the branch was abandoned, never more than ten outstanding, nothing processed from an abandoned branch after the fork was announced, and convergence to the new branch. (2) component: explicit-state BFS over operation sequences on the real state.State {announce linked/unlinked header, announce 10, deliver small/60MB body for requested/queued/unknown hash, pop, next-request, clear-all, clear-after, set-last} over a tree (trunk of 14, two forks); every return value and count compared with a two-FIFO reference after every step; state key = reflective dump of State + reference"
 	rep.Assumptions = []string{"block bodies are fakes that only report a size", "window = 10, byte limit = 100 MB (constants of the implementation)"}
 	return rep.Finish()
+}
+
+func c13NodeScenarios() []histParams {
+	ev := []string{"ext:12", "ext:1", "reorg:1:2", "reorg:3:4", "reorg:12:13", "ans", "ans:1", "ansb", "tick:250", "settle"}
+	return []histParams{{Prop: "C13", Cfg: WorldCfg{InitialChain: 4, StartHeight: 2, SafeDelayMS: 2000, RemoveMissing: true}, Boot: "synced", Events: ev, Drain: true, BlockFetch: true}}
 }
